@@ -7,11 +7,20 @@ A *spec* is a JSON-able tree (so that replay files can hold it):
   ["list",[spec..]] ["tuple",[..]] ["dict",[[key,spec]..]] ["fdict",[[key,spec]..]]
       key = ["k",str] | ["x",kind]          (kind names a non-string key)
   ["bad",kind]                               (an unsupported value)
+  ["sub",kind,base]                          an instance of a non-Enum SUBCLASS of a scalar type (SUB_KINDS: ptasks.Celsius(float),
+                                             ptasks.Label(str), ptasks.Seed(int), numpy.float64, numpy.str_); base = ["float",tok] |
+                                             ["str",s] | ["int",i] is the plain value it is == to
+      key = .. | ["ks",kind,str]             a dict key that is an instance of a str subclass (ptasks.Label, numpy.str_)
+                | ["ke",mod,qual,member]     a dict key that is a member of a str-mixin enum ((str, Enum) / StrEnum)
+Towards the Lean model (`words`) a "sub" value is its base scalar and a "ks"/"ke" key is its plain str (`key_str`): json.dumps
+writes them so, hence the cache key and what cached_tasks rebuilds.  `show` marks them ('~' + hex of the subclass name);
+`strip_marks` removes the marks again (the form the model prints).
   ["task",mod,qual,[[fieldname,spec]..]]     (a constructor call)
 """
 import importlib
 import json
 import math
+import re
 from enum import Enum
 
 from frozendict import frozendict
@@ -24,6 +33,9 @@ TASK_TYPES = {
     ('ptasks', 'Experiment'): ['p'], ('ptasks', 'WithPost'): ['p'], ('ptasks', 'NoCache'): ['p'],
     ('ptasks', 'AltT'): ['p'],
     ('ptasks2', 'Leaf'): ['x'], ('ptasks2', 'Box'): ['a', 'b'], ('ptasks2', 'Exp'): ['p'],
+    # a type whose identifier has a non-ASCII letter (in two modules), and a type whose cache format has a KEY_PREFIX with
+    # characters outside [A-Za-z0-9_] ('pickle-v2 é__'): both are part of the cache key = name of the entry's directory
+    ('ptasks', 'Étude'): ['p'], ('ptasks2', 'Étude'): ['p'], ('ptasks', 'Archive'): ['p'],
 }
 ENUM_TYPES = {
     ('ptasks', 'Color'): ['RED', 'BLUE'], ('ptasks', 'Shade'): ['DARK', 'LIGHT'], ('ptasks2', 'Color'): ['RED', 'BLUE'],
@@ -51,10 +63,87 @@ for _cls in [('ptasks', 'Dataset'), ('ptasks', 'Split'), ('ptasks2', 'Dataset')]
 EDGE_INTS = [0, -1, 1, 2, 2 ** 63, -2 ** 63 - 1, 10 ** 30, 255]
 EDGE_FLOATS = ['0.0', '-0.0', '1.0', '1e-320', 'Infinity', '-Infinity', '0.1', '1e+22', '-2.5', '1.7976931348623157e+308', '5e-324']
 EDGE_STRS = ['', 'a', '1', 'True', 'null', ' ', 'é', 'naïve ☃', '😀', '\u007f', '\x00\x1f', 'line\nbreak\ttab', '"q"', 'back\\slash',
-             '{"_is_task": true}', '[1, 2]', '1.0', 'ptasks.Leaf', 'train', 'test', ' ', 'x' * 40, '\U0001F600\U00010000', '/', '..']
+             '{"_is_task": true}', '[1, 2]', '1.0', 'ptasks.Leaf', 'train', 'test', ' ', 'x' * 40, '😀\U00010000', '/', '..']
 RESERVED_KEYS = ['_is_task', '_is_enum', '__class__', 'name', 'x', 'p', 'a', 'b', '', 'é', 'k"q', 'cache_key', '_lt']
 BAD_KINDS = ['set', 'frozenset', 'bytes', 'object', 'complex', 'range', 'bytearray', 'class', 'func']
 KEY_KINDS = ['int', 'none', 'tuple', 'float', 'bytes', 'bool', 'enum']
+# non-Enum subclasses of the scalar types: kind -> (base spec tag, how to find the class)
+SUB_KINDS = {'Celsius': 'float', 'Label': 'str', 'Seed': 'int'}
+try:
+    import numpy as _np
+    SUB_KINDS.update({'npfloat64': 'float', 'npstr': 'str'})
+except ImportError:      # (numpy is an optional extra of the environment)
+    _np = None
+# The generators draw from the plain Python subclasses only.  numpy scalars do not have a boolean == with sequences
+# (numpy.float64(1.0) == (1.0, 2.0) is an array whose truth value raises ValueError, == (1.0,) is a truthy array), so any ==
+# between two tasks of one type - the harness's or labtech's own, e.g. check_cycle's `dependency == task` - misbehaves when
+# one holds a numpy scalar where the other holds a tuple: numpy's semantics, outside the property.  They appear in the fixed
+# constructor calls of `numpy_probes` instead, where no such pair exists.
+GEN_SUB_KINDS = ['Celsius', 'Label', 'Seed']
+# str-mixin enum members usable as dict keys (they are instances of str)
+STR_ENUM_KEYS = sorted(k for k, v in MIXIN_VALUE.items() if v[0] == 'str')
+
+
+def sub_cls(kind):
+    import ptasks
+    if kind == 'npfloat64':
+        return _np.float64
+    if kind == 'npstr':
+        return _np.str_
+    return getattr(ptasks, kind)
+
+
+def numpy_probes():
+    """fixed constructor calls with numpy scalars (numpy.float64 is a float subclass, numpy.str_ a str subclass) as
+    parameters - top level, in lists / dicts / nested tasks of ANOTHER type, as dict keys; [] without numpy.
+    (numpy.str_ values do not end in NUL: numpy strips trailing NULs when it unpickles its own scalar.)"""
+    if _np is None:
+        return []
+    f = lambda tok: ['sub', 'npfloat64', ['float', tok]]
+    st = lambda x: ['sub', 'npstr', ['str', x]]
+    return [
+        ['task', 'ptasks', 'Exp', [['p', f('0.5')]]],
+        ['task', 'ptasks', 'Experiment', [['p', f('-0.0')]]],
+        ['task', 'ptasks2', 'Leaf', [['x', st('a')]]],
+        ['task', 'ptasks', 'WithPost', [['p', ['list', [f('1e-320'), f('Infinity'), ['dict', [[['k', 'k'], st('é 😀')]]]]]]]],
+        ['task', 'ptasks', 'AltT', [['p', ['dict', [[['ks', 'npstr', 'train'], f('1.7976931348623157e+308')], [['ks', 'npstr', ''], st('')]]]]]],
+        ['task', 'ptasks', 'Étude', [['p', ['tuple', [f('1e+22'), ['task', 'ptasks', 'Leaf', [['x', f('2.5')]]]]]]]],
+        ['task', 'ptasks', 'Archive', [['p', ['fdict', [[['ke', 'ptasks', 'Split', 'TEST'], ['task', 'ptasks2', 'Exp', [['p', st('line\nbreak')]]]]]]]]],
+        ['task', 'ptasks', 'Box', [['a', ['task', 'ptasks', 'Leaf', [['x', f('0.1')]]]], ['b', st('x')]]],
+        ['task', 'ptasks', 'NoCache', [['p', ['list', [f('5e-324'), st('1.0')]]]]],
+    ]
+
+
+def key_str(k):
+    """the plain str a string-key spec is == to (and is written as by json.dumps)"""
+    if k[0] == 'k':
+        return k[1]
+    if k[0] == 'ks':
+        return k[2]
+    if k[0] == 'ke':
+        return MIXIN_VALUE[(k[1], k[2], k[3])][1]
+    raise ValueError(k)
+
+
+def key_obj(k):
+    """the Python object a key spec denotes"""
+    if k[0] == 'k':
+        return k[1]
+    if k[0] == 'ks':
+        return sub_cls(k[1])(k[2])
+    if k[0] == 'ke':
+        return enum_member(cls_of(k[1], k[2]), k[3])
+    return _xkey(k[1])
+
+
+def plain_key(k):
+    return ['k', key_str(k)] if k[0] in ('ks', 'ke') else k
+
+
+def strip_marks(nf):
+    """a normal form printed by `show` without the subclass marks: every scalar-subclass instance as its base scalar,
+    every str-subclass key as its plain str - the value the Lean model is given"""
+    return re.sub(r'~[0-9a-f]*', '', nf) if nf is not None else None
 
 
 def float_token(x):
@@ -67,13 +156,30 @@ def float_token(x):
 
 
 class Gen:
-    def __init__(self, rnd, max_depth=4, malformed=0.0, max_width=4):
+    def __init__(self, rnd, max_depth=4, malformed=0.0, max_width=4, sub_p=0.06, subkey_p=0.1):
         self.r = rnd
         self.max_depth = max_depth
         self.malformed = malformed
         self.max_width = max_width
+        self.sub_p = sub_p            # share of scalars that are instances of a non-Enum subclass of float / str / int
+        self.subkey_p = subkey_p      # share of dict keys that are instances of a str subclass
 
     def scalar(self):
+        r = self.r
+        if self.sub_p and r.random() < self.sub_p:
+            return self.sub_scalar()
+        return self.plain_scalar()
+
+    def sub_scalar(self):
+        r = self.r
+        kind = r.choice(GEN_SUB_KINDS)
+        while True:
+            base = self.plain_scalar()
+            if base[0] == SUB_KINDS[kind]:
+                break
+        return ['sub', kind, base]
+
+    def plain_scalar(self):
         r = self.r
         k = r.randrange(12)
         if k == 0:
@@ -98,9 +204,17 @@ class Gen:
     def key(self, used):
         r = self.r
         for _ in range(20):
+            if self.subkey_p and r.random() < self.subkey_p and r.random() < 0.6:
+                m = r.choice(STR_ENUM_KEYS)
+                if MIXIN_VALUE[m][1] not in used:
+                    used.add(MIXIN_VALUE[m][1])
+                    return ['ke'] + list(m)
+                continue
             k = r.choice(RESERVED_KEYS) if r.random() < 0.5 else r.choice(EDGE_STRS + ['k%d' % r.randrange(5)])
             if k not in used:
                 used.add(k)
+                if self.subkey_p and r.random() < self.subkey_p * 0.4:
+                    return ['ks', 'Label', k]
                 return ['k', k]
         k = 'u%d' % len(used)
         used.add(k)
@@ -207,6 +321,8 @@ def build(spec):
         return ''.join(chr(c) for c in spec[1])
     if t == 'enum':
         return enum_member(cls_of(spec[1], spec[2]), spec[3])
+    if t == 'sub':
+        return sub_cls(spec[1])(build(spec[2]))
     if t == 'list':
         return [build(s) for s in spec[1]]
     if t == 'tuple':
@@ -214,7 +330,7 @@ def build(spec):
     if t in ('dict', 'fdict'):
         d = {}
         for k, v in spec[1]:
-            d[k[1] if k[0] == 'k' else _xkey(k[1])] = build(v)
+            d[key_obj(k)] = build(v)
         return d if t == 'dict' else frozendict(d)
     if t == 'bad':
         return _bad(spec[1])
@@ -244,6 +360,8 @@ def words(spec, out=None):
         out.append('S' + hx(spec[1]))
     elif t == 'enum':
         out.append('E%s:%s:%s' % (tuple(hx(x) for x in model_ref(spec[1], spec[2])) + (hx(spec[3]),)))
+    elif t == 'sub':
+        words(spec[2], out)        # towards the model: the base scalar
     elif t in ('list', 'tuple'):
         out.append(('L' if t == 'list' else 'T') + str(len(spec[1])))
         for s in spec[1]:
@@ -251,7 +369,7 @@ def words(spec, out=None):
     elif t in ('dict', 'fdict'):
         out.append(('D' if t == 'dict' else 'Z') + str(len(spec[1])))
         for k, v in spec[1]:
-            out.append('K' + hx(k[1]) if k[0] == 'k' else 'X')
+            out.append('K' + hx(key_str(k)) if k[0] != 'x' else 'X')
             words(v, out)
     elif t == 'bad':
         out.append('U')
@@ -285,10 +403,17 @@ def show(v, canon=False):
         return 'S' + hx(v)
     if isinstance(v, Enum):
         return 'E%s:%s:%s' % (tuple(hx(x) for x in model_ref(type(v).__module__, type(v).__qualname__)) + (hx(enum_name(v)),))
+    # instances of non-Enum subclasses of float / int / str: the base scalar, marked with the subclass name
+    if isinstance(v, float):
+        return 'F' + float_token(v) + '~' + hx(type(v).__qualname__)
+    if isinstance(v, int):
+        return 'I%d' % v + '~' + hx(type(v).__qualname__)
+    if isinstance(v, str):
+        return 'S' + hx(v) + '~' + hx(type(v).__qualname__)
     if type(v) is tuple:
         return 'T%d(%s)' % (len(v), ','.join(show(i) for i in v))
     if type(v) is frozendict:
-        return 'Z%d(%s)' % (len(v), ','.join('K%s=%s' % (hx(k), show(i)) if type(k) is str else 'X=' + show(i) for k, i in v.items()))
+        return 'Z%d(%s)' % (len(v), ','.join(_show_key(k) + '=' + show(i) for k, i in v.items()))
     if is_task(v):
         fs = [(f.name, getattr(v, f.name)) for f in fields(v)]
         return 'O%s:%s:%d(%s)' % (hx(type(v).__module__), hx(type(v).__qualname__), len(fs),
@@ -300,12 +425,22 @@ def show(v, canon=False):
     return '?' + type(v).__qualname__
 
 
+def _show_key(k):
+    """a dict key: plain str, instance of a str subclass (marked; a (str, Enum) member prints its str VALUE), anything else"""
+    if type(k) is str:
+        return 'K' + hx(k)
+    if isinstance(k, str):
+        return 'K' + hx(k) + '~' + hx(type(k).__qualname__)
+    return 'X'
+
+
 def _show_canon(v):
     from dataclasses import fields
     if type(v) is tuple:
         return 'T%d(%s)' % (len(v), ','.join(_show_canon(i) for i in v))
     if type(v) is frozendict:
-        return 'Z%d(%s)' % (len(v), ','.join(sorted('K%s=%s' % (hx(str(k)), _show_canon(i)) for k, i in v.items())))
+        return 'Z%d(%s)' % (len(v), ','.join(sorted((_show_key(k) if isinstance(k, str) else 'K' + hx(str(k))) + '=' + _show_canon(i)
+                                                    for k, i in v.items())))
     if is_task(v):
         fs = [(f.name, getattr(v, f.name)) for f in fields(v)]
         return 'O%s:%s:%d(%s)' % (hx(type(v).__module__), hx(type(v).__qualname__), len(fs),
@@ -329,7 +464,7 @@ def json_exact(a, b):
 # ---------------------------------------------------------------- facts about specs
 
 def spec_stats(spec, st=None, depth=0):
-    st = st if st is not None else dict(nodes=0, depth=0, tasks=0, lists=0, dicts=0, bad=0, xkeys=0, enums=0, strs_nonascii=0, floats=0, empty=0)
+    st = st if st is not None else dict(nodes=0, depth=0, tasks=0, lists=0, dicts=0, bad=0, xkeys=0, enums=0, strs_nonascii=0, floats=0, empty=0, subs=0, skeys=0)
     st['nodes'] += 1
     st['depth'] = max(st['depth'], depth)
     t = spec[0]
@@ -343,6 +478,7 @@ def spec_stats(spec, st=None, depth=0):
         st['empty'] += not spec[1]
         for k, s in spec[1]:
             st['xkeys'] += k[0] == 'x'
+            st['skeys'] += k[0] in ('ks', 'ke')
             spec_stats(s, st, depth + 1)
     elif t == 'task':
         st['tasks'] += 1
@@ -354,6 +490,9 @@ def spec_stats(spec, st=None, depth=0):
         st['enums'] += 1
     elif t == 'float':
         st['floats'] += 1
+    elif t == 'sub':
+        st['subs'] += 1
+        st['floats'] += spec[2][0] == 'float'
     elif t == 'str':
         st['strs_nonascii'] += any(ord(c) > 126 or ord(c) < 32 for c in spec[1])
     return st
@@ -386,12 +525,17 @@ def shrink_candidates(spec):
         for i, (k, s) in enumerate(spec[1]):
             for c in shrink_candidates(s) + [x for x in children(s)] + ([['int', 0]] if s != ['int', 0] else []):
                 out.append([t, spec[1][:i] + [[k, c]] + spec[1][i + 1:]])
+            if k[0] in ('ks', 'ke'):
+                out.append([t, spec[1][:i] + [[plain_key(k), s]] + spec[1][i + 1:]])
     elif t == 'task':
         for i, (f, s) in enumerate(spec[3]):
             for c in shrink_candidates(s) + [x for x in children(s)] + ([['int', 0]] if s != ['int', 0] else []):
                 out.append(['task', spec[1], spec[2], spec[3][:i] + [[f, c]] + spec[3][i + 1:]])
     elif t == 'str' and spec[1]:
         out.append(['str', spec[1][:len(spec[1]) // 2]])
+    elif t == 'sub':
+        out.append(spec[2])
+        out += [['sub', spec[1], c] for c in shrink_candidates(spec[2])]
     return out
 
 
